@@ -308,4 +308,223 @@ theorem mem_joinWith {sep : Bytes} {xs : List Bytes} {c : Nat} (h : c ∈ joinWi
         · exact Or.inl h
         · exact Or.inr ⟨z, List.mem_cons_of_mem _ hz, hc⟩
 
+/-! ### substring values -/
+
+/-- the domain condition on an optional substring component -/
+def OptComp (x : Option Bytes) : Prop := match x with | none => True | some x => x ≠ [] ∧ IsBytes x
+
+theorem isBytes_getD {x : Option Bytes} (h : OptComp x) : IsBytes (x.getD []) := by
+  cases x with
+  | none => intro b hb; simp at hb
+  | some v => exact h.2
+
+theorem star_not_mem_escapeValue {v : Bytes} (hb : IsBytes v) : cStar ∉ escapeValue v :=
+  fun h => (escapeValue_chars v hb _ h).2.2.2 rfl
+
+theorem rparen_not_mem_escapeValue {v : Bytes} (hb : IsBytes v) : cRParen ∉ escapeValue v :=
+  fun h => (escapeValue_chars v hb _ h).2.2.1 rfl
+
+theorem unescape_len (v : Bytes) (hb : IsBytes v) :
+    unescape ((escapeValue v).length + 1) (escapeValue v) = some v :=
+  unescape_escapeValue v hb _ (Nat.lt_succ_self _)
+
+theorem optPart_eq {x : Option Bytes} (h : OptComp x) :
+    (if (escapeValue (x.getD [])).isEmpty then some none
+      else (unescape ((escapeValue (x.getD [])).length + 1) (escapeValue (x.getD []))).map some) = some x := by
+  cases x with
+  | none => simp [escapeValue_nil]
+  | some v =>
+    have : escapeValue v ≠ [] := fun e => h.1 (escapeValue_eq_nil.1 e)
+    simp [this, unescape_len v h.2]
+
+theorem mids_eq (any : List Bytes) (ha : ∀ x ∈ any, x ≠ [] ∧ IsBytes x) :
+    (any.map escapeValue).foldr (fun v acc =>
+      match acc with
+      | none => none
+      | some l => if v.isEmpty then none else (unescape (v.length + 1) v).map (· :: l)) (some []) = some any := by
+  induction any with
+  | nil => rfl
+  | cons x t ih =>
+    have hx := ha x (by simp)
+    have : escapeValue x ≠ [] := fun e => hx.1 (escapeValue_eq_nil.1 e)
+    rw [List.map_cons, List.foldr_cons, ih (fun z hz => ha z (List.mem_cons_of_mem _ hz))]
+    simp [this, unescape_len x hx.2]
+
+theorem substringsValue_of_split (raw first last : Bytes) (mids : List Bytes)
+    (h : splitOn cStar raw = first :: (mids ++ [last])) :
+    substringsValue raw =
+      (match (if first.isEmpty then some none else (unescape (first.length + 1) first).map some),
+        (mids.foldr (fun v acc =>
+          match acc with
+          | none => none
+          | some l => if v.isEmpty then none else (unescape (v.length + 1) v).map (· :: l)) (some [])),
+        (if last.isEmpty then some none else (unescape (last.length + 1) last).map some) with
+      | some f, some ms, some l => some (f, ms, l)
+      | _, _, _ => none) := by
+  obtain ⟨y, ys, hy⟩ : ∃ y ys, mids ++ [last] = y :: ys := by
+    cases mids with
+    | nil => exact ⟨_, _, rfl⟩
+    | cons a t => exact ⟨_, _, rfl⟩
+  have hl : (y :: ys).getLast! = last := by rw [← hy]; simp
+  have hd : (y :: ys).dropLast = mids := by rw [← hy]; simp
+  unfold substringsValue
+  rw [h, hy]
+  simp only [hl, hd]
+  rfl
+
+def substrParts (i : Option Bytes) (any : List Bytes) (f : Option Bytes) : List Bytes :=
+  [escapeValue (i.getD [])] ++ any.map escapeValue ++ [escapeValue (f.getD [])]
+
+theorem splitOn_substrParts (i : Option Bytes) (any : List Bytes) (f : Option Bytes)
+    (hi : OptComp i) (ha : ∀ x ∈ any, x ≠ [] ∧ IsBytes x) (hf : OptComp f) :
+    splitOn cStar (joinWith [cStar] (substrParts i any f)) = substrParts i any f := by
+  apply splitOn_joinWith
+  · simp [substrParts]
+  · intro x hx
+    simp only [substrParts, List.mem_append, List.mem_singleton, List.mem_map] at hx
+    rcases hx with (rfl | ⟨y, hy, rfl⟩) | rfl
+    · exact star_not_mem_escapeValue (isBytes_getD hi)
+    · exact star_not_mem_escapeValue (ha y hy).2
+    · exact star_not_mem_escapeValue (isBytes_getD hf)
+
+theorem substringsValue_join (i : Option Bytes) (any : List Bytes) (f : Option Bytes)
+    (hi : OptComp i) (ha : ∀ x ∈ any, x ≠ [] ∧ IsBytes x) (hf : OptComp f) :
+    substringsValue (joinWith [cStar] (substrParts i any f)) = some (i, any, f) := by
+  rw [substringsValue_of_split _ (escapeValue (i.getD [])) (escapeValue (f.getD [])) (any.map escapeValue)
+    (by rw [splitOn_substrParts i any f hi ha hf]; simp [substrParts])]
+  rw [optPart_eq hi, optPart_eq hf, mids_eq any ha]
+
+/-- the joined substring text contains a `*`, no `)`, and is not the lone `*` of a presence filter -/
+theorem substr_raw_facts (i : Option Bytes) (any : List Bytes) (f : Option Bytes)
+    (hi : OptComp i) (ha : ∀ x ∈ any, x ≠ [] ∧ IsBytes x) (hf : OptComp f)
+    (hsome : i.isSome = true ∨ any ≠ [] ∨ f.isSome = true) :
+    (joinWith [cStar] (substrParts i any f)).contains cStar = true ∧
+      cRParen ∉ joinWith [cStar] (substrParts i any f) ∧
+      joinWith [cStar] (substrParts i any f) ≠ [cStar] ∧
+      ∀ c ∈ joinWith [cStar] (substrParts i any f), 32 ≤ c ∧ c < 127 := by
+  have hmem : ∀ x ∈ substrParts i any f, ∀ c ∈ x, valChar c := by
+    intro x hx
+    simp only [substrParts, List.mem_append, List.mem_singleton, List.mem_map] at hx
+    rcases hx with (rfl | ⟨y, hy, rfl⟩) | rfl
+    · exact escapeValue_chars _ (isBytes_getD hi)
+    · exact escapeValue_chars _ (ha y hy).2
+    · exact escapeValue_chars _ (isBytes_getD hf)
+  refine ⟨?_, ?_, ?_, ?_⟩
+  · obtain ⟨y, ys, hy⟩ : ∃ y ys, any.map escapeValue ++ [escapeValue (f.getD [])] = y :: ys := by
+      cases any with
+      | nil => exact ⟨_, _, rfl⟩
+      | cons a t => exact ⟨_, _, rfl⟩
+    have : substrParts i any f = escapeValue (i.getD []) :: y :: ys := by
+      simp [substrParts, ← hy]
+    rw [this, joinWith_cons_cons]
+    simp
+  · intro h
+    rcases mem_joinWith h with h | ⟨x, hx, hc⟩
+    · simp [cRParen, cStar] at h
+    · exact (hmem x hx _ hc).2.2.1 rfl
+  · intro h
+    have h2 := splitOn_substrParts i any f hi ha hf
+    rw [h] at h2
+    have h3 : substrParts i any f = [[], []] := by rw [← h2]; decide
+    simp only [substrParts] at h3
+    cases any with
+    | cons a t => simp at h3
+    | nil =>
+      simp only [List.map_nil, List.append_nil, List.singleton_append, List.cons.injEq, and_true] at h3
+      rcases hsome with hs | hs | hs
+      · cases i with
+        | none => simp at hs
+        | some v => exact hi.1 (escapeValue_eq_nil.1 h3.1)
+      · exact hs rfl
+      · cases f with
+        | none => simp at hs
+        | some v => exact hf.1 (escapeValue_eq_nil.1 h3.2)
+  · intro c h
+    rcases mem_joinWith h with h | ⟨x, hx, hc⟩
+    · simp only [List.mem_singleton] at h; subst h; decide
+    · exact ⟨(hmem x hx _ hc).1, (hmem x hx _ hc).2.1⟩
+
+/-! ### extensible-match header -/
+
+def extParts (rule attr : Option Bytes) (dn : Bool) : List Bytes :=
+  [attr.getD []] ++ (if dn then [[100, 110]] else []) ++ (match rule with | some r => [r] | none => [])
+
+def OptAttr (x : Option Bytes) : Prop := match x with | none => True | some a => validAttr a = true
+
+theorem extParts_chars (rule attr : Option Bytes) (dn : Bool) (ha : OptAttr attr) (hr : OptAttr rule) :
+    ∀ x ∈ extParts rule attr dn, ∀ c ∈ x, attrChar c := by
+  intro x hx c hc
+  simp only [extParts, List.mem_append, List.mem_singleton] at hx
+  rcases hx with (rfl | hx) | hx
+  · cases attr with
+    | none => simp at hc
+    | some a => exact validAttr_chars ha c hc
+  · cases dn with
+    | false => simp at hx
+    | true =>
+      simp only [if_true, List.mem_singleton] at hx
+      subst hx
+      simp only [List.mem_cons, List.not_mem_nil, or_false] at hc
+      rcases hc with rfl | rfl <;> exact Or.inl (by decide)
+  · cases rule with
+    | none => simp at hx
+    | some r =>
+      simp only [List.mem_singleton] at hx
+      subst hx
+      exact validAttr_chars hr c hc
+
+theorem extParts_ne_nil (rule attr : Option Bytes) (dn : Bool) : extParts rule attr dn ≠ [] := by
+  simp [extParts]
+
+theorem splitOn_extParts (rule attr : Option Bytes) (dn : Bool) (ha : OptAttr attr) (hr : OptAttr rule) :
+    splitOn cColon (joinWith [cColon] (extParts rule attr dn)) = extParts rule attr dn :=
+  splitOn_joinWith _ _ (extParts_ne_nil rule attr dn) fun x hx hc =>
+    (attrChar_facts (extParts_chars rule attr dn ha hr x hx _ hc)).2.2.2.2.2.1 rfl
+
+theorem lower_d : lowerAscii 100 = 100 := by decide
+theorem lower_n : lowerAscii 110 = 110 := by decide
+
+theorem extHeader_join (rule attr : Option Bytes) (dn : Bool) (ha : OptAttr attr)
+    (hr : match rule with | none => True | some r => validAttr r = true ∧ (dn = false → isDnWord r = false))
+    (hsome : attr.isSome = true ∨ rule.isSome = true ∨ dn = true) :
+    extHeader (joinWith [cColon] (extParts rule attr dn)) = some (attr, dn, rule) := by
+  have hr' : OptAttr rule := by
+    cases rule with
+    | none => trivial
+    | some r => exact hr.1
+  unfold extHeader
+  rw [splitOn_extParts rule attr dn ha hr']
+  have hattr : ∀ a, attr = some a → validAttr a = true ∧ a ≠ [] := by
+    rintro a rfl; exact ⟨ha, validAttr_ne_nil ha⟩
+  cases attr with
+  | none =>
+    cases dn with
+    | true =>
+      cases rule with
+      | none => simp [extParts, lower_d, lower_n]
+      | some r => simp [extParts, lower_d, lower_n, hr.1]
+    | false =>
+      cases rule with
+      | none => simp at hsome
+      | some r =>
+        have h2 : ¬ List.map lowerAscii r = [100, 110] := by
+          have := hr.2 rfl
+          simpa [isDnWord] using this
+        simp [extParts, h2, hr.1]
+  | some a =>
+    obtain ⟨hv, hne⟩ := hattr a rfl
+    cases dn with
+    | true =>
+      cases rule with
+      | none => simp [extParts, lower_d, lower_n, hv, hne]
+      | some r => simp [extParts, lower_d, lower_n, hr.1, hv, hne]
+    | false =>
+      cases rule with
+      | none => simp [extParts, hv, hne]
+      | some r =>
+        have h2 : ¬ List.map lowerAscii r = [100, 110] := by
+          have := hr.2 rfl
+          simpa [isDnWord] using this
+        simp [extParts, h2, hr.1, hv, hne]
+
 end Verif.Proofs
